@@ -40,7 +40,8 @@ import (
 type Prog struct {
 	Op   byte // T N Z M B L F K G R E P C V Y   (F: Body[0] is the closing value T/N/Z)
 	N    int
-	S    int // rendering shape (F: how the iterator triple + closing value are supplied; L: 1 = repeat-until)
+	S    int // rendering shape (F: how the iterator triple + closing value are supplied; L: 1 = repeat-until;
+	// P: which function is given directly to pcall, see pShapes)
 	Body []*Prog
 }
 
@@ -56,6 +57,9 @@ func (p *Prog) String() string {
 			sh = "_" + strconv.Itoa(p.S)
 		}
 		return string(p.Op) + strconv.Itoa(p.N) + sh + "(" + seqString(p.Body) + ")"
+	}
+	if p.Op == 'P' && p.S != 0 {
+		return "P_" + strconv.Itoa(p.S) + "(" + seqString(p.Body) + ")"
 	}
 	return string(p.Op) + "(" + seqString(p.Body) + ")"
 }
@@ -143,6 +147,99 @@ func findVarargF(ps []*Prog) *Prog {
 		}
 	}
 	return nil
+}
+
+// Shapes of a protected call: what is handed DIRECTLY to pcall / xpcall.  In all but the first the
+// protected function is a Go library function (or a callable object) that calls back into Lua; the
+// callback runs the body in a Lua function of its own, so `return` in the body means the same.  The
+// to-be-closed variables pending in the callback when it raises must be closed, with the error, before
+// pcall returns.
+const (
+	pLua       = iota // pcall(function() body end)
+	pGsub             // pcall(string.gsub, "x", "x", callback)
+	pSort             // pcall(table.sort, {2, 1}, comparator)        (the body runs in the first comparison)
+	pTostring         // pcall(tostring, obj with __tostring)
+	pIndex            // pcall(table.unpack, obj with __index, 1, 1)
+	pXpcall           // xpcall(string.gsub, handler, "x", "x", callback)
+	pCallable         // pcall(obj with __call)
+	pLt               // pcall(table.sort, {o1, o2}) with __lt
+	pWrap             // pcall(coroutine.wrap(function() body end))    (not with a yield in the body)
+	pPcall            // pcall(pcall, function() body end)
+	pShapes
+)
+
+func hasYield(ps []*Prog) bool {
+	for _, p := range ps {
+		if p.Op == 'Y' || hasYield(p.Body) {
+			return true
+		}
+	}
+	return false
+}
+
+func (r *renderer) pcall(p *Prog) {
+	w := &r.sb
+	shape := p.S
+	if shape == pWrap && hasYield(p.Body) {
+		shape = pGsub
+	}
+	// inner renders `(function(...) body end)(args)`, the call of the body's own function
+	inner := func() {
+		w.WriteString("(")
+		args := r.function(p.Body, false)
+		w.WriteString(")(" + args + ")")
+	}
+	switch shape {
+	case pLua:
+		w.WriteString("do local ok, e = pcall(")
+		args := r.function(p.Body, true)
+		w.WriteString(args + ") caught(ok, e) end\n")
+	case pGsub:
+		w.WriteString("do local ok, e = pcall(string.gsub, 'x', 'x', function() ")
+		inner()
+		w.WriteString(" end) caught(ok, e) end\n")
+	case pXpcall:
+		w.WriteString("do local ok, e = xpcall(string.gsub, function(m) return m end, 'x', 'x', function() ")
+		inner()
+		w.WriteString(" end) caught(ok, e) end\n")
+	case pSort:
+		w.WriteString("do local done = false local ok, e = pcall(table.sort, {2, 1}, function() if done then return false end done = true ")
+		inner()
+		w.WriteString(" return false end) caught(ok, e) end\n")
+	case pLt:
+		w.WriteString("do local done = false local mt = {__lt = function() if done then return false end done = true ")
+		inner()
+		w.WriteString(" return false end} local ok, e = pcall(table.sort, {setmetatable({}, mt), setmetatable({}, mt)}) caught(ok, e) end\n")
+	case pTostring:
+		w.WriteString("do local ok, e = pcall(tostring, setmetatable({}, {__tostring = function() ")
+		inner()
+		w.WriteString(" return 's' end})) caught(ok, e) end\n")
+	case pIndex:
+		w.WriteString("do local ok, e = pcall(table.unpack, setmetatable({}, {__index = function() ")
+		inner()
+		w.WriteString(" end}), 1, 1) caught(ok, e) end\n")
+	case pCallable:
+		w.WriteString("do local ok, e = pcall(setmetatable({}, {__call = function() ")
+		inner()
+		w.WriteString(" end})) caught(ok, e) end\n")
+	case pWrap:
+		w.WriteString("do local ok, e = pcall(coroutine.wrap(")
+		args := r.function(p.Body, true)
+		w.WriteString(")" + args + ") caught(ok, e) end\n")
+	case pPcall:
+		w.WriteString("do local ok, ok2, e = pcall(pcall, ")
+		args := r.function(p.Body, true)
+		w.WriteString(args + ") if ok then caught(ok2, e) else caught(ok, ok2) end end\n")
+	}
+}
+
+func hasShapedPcall(ps []*Prog) bool {
+	for _, p := range ps {
+		if (p.Op == 'P' && p.S != 0) || hasShapedPcall(p.Body) {
+			return true
+		}
+	}
+	return false
 }
 
 // function renders `function(...) body end` and returns the argument list the call must pass (with a
@@ -326,9 +423,7 @@ func (r *renderer) stat(p *Prog, labels []*string) {
 	case 'Y':
 		w.WriteString("coroutine.yield()\n")
 	case 'P':
-		w.WriteString("do local ok, e = pcall(")
-		args := r.function(p.Body, true)
-		w.WriteString(args + ") caught(ok, e) end\n")
+		r.pcall(p)
 	case 'C':
 		w.WriteString(";(")
 		args := r.function(p.Body, false)
@@ -543,7 +638,8 @@ func (e *env) run(variant string, body []*Prog, hs map[int]handler) {
 		log = "-"
 	}
 	sk := "-"
-	if variant == "pcall" && status != "compile-error" {
+	if variant == "pcall" && status != "compile-error" && !hasShapedPcall(body) {
+		// (a shaped protected call wraps the body in one more Lua function: the skeleton is then not compared)
 		sk = skeleton(unit)
 	}
 	hlib.Emit(variant, seqString(body), handlersString(hs), "=", log, sk)
@@ -616,6 +712,15 @@ func parseSeq(s string, i int) ([]*Prog, int, error) {
 				i = j
 			}
 		case 'B', 'P', 'C', 'V':
+			shape := 0
+			if c == 'P' && i+1 < len(s) && s[i+1] == '_' {
+				k := i + 2
+				for k < len(s) && s[k] >= '0' && s[k] <= '9' {
+					k++
+				}
+				shape, _ = strconv.Atoi(s[i+2 : k])
+				i = k - 1
+			}
 			if i+1 >= len(s) || s[i+1] != '(' {
 				return nil, 0, fmt.Errorf("( expected at %d", i+1)
 			}
@@ -623,7 +728,7 @@ func parseSeq(s string, i int) ([]*Prog, int, error) {
 			if err != nil {
 				return nil, 0, err
 			}
-			out = append(out, &Prog{Op: c, Body: body})
+			out = append(out, &Prog{Op: c, S: shape, Body: body})
 			i = k
 		default:
 			return nil, 0, fmt.Errorf("unexpected %q at %d", c, i)
@@ -719,6 +824,9 @@ func (c *chain) build() ([]*Prog, []int) {
 			}
 			if c.kinds[l] == 'L' && (c.seed+l)%3 == 0 {
 				shape = 1 // repeat-until
+			}
+			if c.kinds[l] == 'P' && (c.seed+l)%2 == 0 {
+				shape = 1 + (c.seed/2+l)%(pShapes-1) // a Go function handed to pcall, calling back
 			}
 			q := comp(c.kinds[l], n, inner)
 			q.S = shape
@@ -903,7 +1011,11 @@ func (g *rgen) seq(depth int, levels []bool, inLoop bool) []*Prog {
 				q.S = shape
 				out = append(out, q)
 			default:
-				out = append(out, comp(k, 0, g.seq(depth-1, nil, false)))
+				q := comp(k, 0, g.seq(depth-1, nil, false))
+				if k == 'P' && g.rng.Below(2) == 0 {
+					q.S = 1 + g.rng.Below(pShapes-1)
+				}
+				out = append(out, q)
 			}
 		case r == 13:
 			out = append(out, op('R'))
